@@ -92,7 +92,8 @@ FLAGS = {"-": {}, "more": {"more": True}, "oneway": {"oneway": True}}
 ALL_FLAGS = {"-": {}, "more": {"more": True}, "oneway": {"oneway": True}, "more+oneway": {"more": True, "oneway": True},
              "oneway_false": {"oneway": False}, "more_false": {"more": False},
              # upgrade:true on a request whose method does not upgrade: the connection stays an ordinary varlink connection
-             "upgflag": {"upgrade": True}, "upgflag+more": {"upgrade": True, "more": True}}
+             "upgflag": {"upgrade": True}, "upgflag+more": {"upgrade": True, "more": True},
+             "oneway+upgflag": {"oneway": True, "upgrade": True}}
 
 
 def make(kind, flag, tag, flagset=ALL_FLAGS):
